@@ -6,10 +6,15 @@
   margin theorem over any real or complex inner-product space; the conversion over ℝ-pairs (`Cx ℝ`).
   The two are joined: the model's `overlap` on ℝ-pairs is Mathlib's `inner` on `EuclideanSpace ℂ (Fin n)`
   (`overlap_is_inner`), hence `evecSort_recovers` — the end-to-end statement about `Evec.evecSort` itself.
-  Floating-point rounding, `float()` and the regex engine are outside the model.
+  Floating-point rounding and `float()` are outside the model.
+  The last section (`evec_model_is_source…`) ties the model to the SOURCE of the three files: `tools/gens/evec_src.py` extracts set
+  display, tests, matrix expressions, loop statements, both regex literals, column slices, converters and step lists into
+  `Generated/EvecSpec.lean`; `CijModel/EvecSrc.lean` interprets that data with its Python/numpy meaning (the regexes by a backtracking
+  matcher); the theorems say the interpreted source IS the model, for all inputs.
 -/
 import CijProofs.Lemmas.Evec
 import CijProofs.Lemmas.EvecBridge
+import CijProofs.Lemmas.EvecSource
 
 namespace Cij.C20
 open Cij Cij.Evec
@@ -488,5 +493,185 @@ example : evecLoad pfRat 1 3 sampleEig = some [([mkRat 1258 10000, mkRat (-347) 
 example : evecLoad pfRat 1 3 sampleEig.dropLast = none := by decide +kernel
 
 end load
+
+/-! ### the model IS the source (translator tie): `Generated.sortSpec`, `Generated.dispSpec`, `Generated.loadSpec` are re-extracted from
+`cij/misc/evec_sort.py`, `evec_disp2eig.py`, `evec_load.py` on every run; everything not extracted is compared with a canonical skeleton -/
+
+section source
+open Cij.EvecSrc
+variable {ι : Type}
+
+/-- DIMENSION TEST = SOURCE.  `s = set([len(T), len(B), *[len(i) for i in (T + B)]])`, `if len(s) != 1 or ndim not in s: raise`, as
+extracted (set display and test as trees) and given their Python meaning (`len(s)` = number of distinct lengths), reject exactly when the
+model's `dimsOk` fails: for ALL length vectors — every `ndim`, every two lists of vectors of any lengths. -/
+theorem evec_model_is_source_dimension_test {β : Type} (ndim : Nat) (T B : List (List β)) :
+    Generated.sortSpec.dimReject.eval ndim (Generated.sortSpec.dimSet.flatMap (SetElem.eval T B)) = true ↔
+      ¬ (T.length = ndim ∧ B.length = ndim ∧ ∀ v ∈ T ++ B, v.length = ndim) := by
+  rw [sort_dim_test_is_model, ← dimsOk_iff]
+  simp
+
+/-- OVERLAP = SOURCE.  Entry (i, j) of the extracted expression `numpy.conj(numpy.array(base_evecs)) @ numpy.array(target_evecs).T`
+is the model's `overlap B[i] T[j] = Σ_k conj(B[i][k])·T[j][k]`: the BASE is conjugated (not the product), the target transposed, row =
+base index, column = target index — over any scalar. -/
+theorem evec_model_is_source_overlap {ρ : Type} [Add ρ] [Sub ρ] [Mul ρ] [Div ρ] [Neg ρ] [OfNat ρ 0] [HasSqrt ρ]
+    (T B : List (List (Cx ρ))) (n i j : Nat) (hi : i < B.length) (hj : j < T.length)
+    (hBi : (B[i]).length = n) (hTj : (T[j]).length = n) :
+    Generated.sortSpec.overlap.eval (fun name =>
+        if name == "base_evecs" then matOf B else if name == "target_evecs" then matOf T else fun _ _ => Cx.zero) n i j
+      = overlap B[i] T[j] :=
+  conj_matmul_tr_eval _ "base_evecs" "target_evecs" B T (by simp) (by simp) n i j hi hj hBi hTj
+
+/-- … which over ℝ-pairs is Mathlib's `⟪B[i], T[j]⟫_ℂ` (conjugate-linear in the base vector) -/
+theorem evec_model_is_source_overlap_inner (T B : List (List (Cx ℝ))) (n i j : Nat) (hi : i < B.length) (hj : j < T.length)
+    (hBi : (B[i]).length = n) (hTj : (T[j]).length = n) :
+    Cx.toC (Generated.sortSpec.overlap.eval (fun name =>
+        if name == "base_evecs" then matOf B else if name == "target_evecs" then matOf T else fun _ _ => Cx.zero) n i j)
+      = inner ℂ (toVec n B[i]) (toVec n T[j]) := by
+  rw [evec_model_is_source_overlap T B n i j hi hj hBi hTj]
+  exact toC_overlap_eq_inner n _ _ hBi hTj
+
+/-- LOOP = SOURCE.  `k` rounds of the loop as written — `idx = unravel_index(argmax(abs(m)), m.shape)`, the threshold test
+(`threshold and m[idx] < threshold`, false without a threshold), `m[idx[0], :] = 0`, `m[:, idx[1]] = 0`,
+`sorted_arr[idx[0]] = target_arr[idx[1]]`, in the extracted order — never raise and leave in `sorted_arr` what `k` rounds of the model's
+greedy step leave on the magnitude matrix. -/
+theorem evec_model_is_source_loop (n : Nat) (target : Nat → ι) (k : Nat) (st : SortState ℝ ι) :
+    (sortLoop Generated.sortSpec n none target k st).map (·.sorted)
+      = some (greedyLoop n target k (fun i j => Cx.abs (st.m i j)) st.sorted) :=
+  sortLoop_is_greedy abs_zero_real n target k st
+
+/-- SORT = SOURCE.  The whole of `evec_sort` as the source says it now, run with the extracted defaults (`filter=None`,
+`threshold=None`), is the model's `evecSort`, for all items and vector lists … -/
+theorem evec_model_is_source_sort (items : List ι) (T B : List (List (Cx ℝ))) :
+    runSort Generated.sortSpec none none items T B = evecSort items T B ∧
+    Generated.sortSpec.defaults = [("filter", "None"), ("threshold", "None")] :=
+  ⟨runSort_is_evecSort abs_zero_real items T B, by decide⟩
+
+/-- … over ANY scalar in which `|0| = 0` (for the driver's `Float` that is `sqrt(0*0+0*0) = 0`) -/
+theorem evec_model_is_source_sort_scalar {ρ : Type} [Add ρ] [Sub ρ] [Mul ρ] [Div ρ] [Neg ρ] [OfNat ρ 0] [HasSqrt ρ]
+    [LT ρ] [DecidableRel (fun a b : ρ => a < b)] [BEq ρ] (habs0 : Cx.abs (Cx.zero : Cx ρ) = 0)
+    (items : List ι) (T B : List (List (Cx ρ))) :
+    runSort Generated.sortSpec none none items T B = evecSort items T B :=
+  runSort_is_evecSort habs0 items T B
+
+/-- hence SORT RECOVERS is a statement about the loop AS WRITTEN: under the hypotheses of `evecSort_recovers` the interpreted source
+returns the planted arrangement, a permutation of the items -/
+theorem evec_sort_source_recovers (items : List ι) (B T : List (List (Cx ℝ))) (c : ℕ → Cx ℝ) (D : ℕ → List (Cx ℝ))
+    (σ π : ℕ → ℕ) (ε : ℝ)
+    (hB : B.length = items.length) (hT : T.length = items.length) (hBl : ∀ v ∈ B, v.length = items.length)
+    (horth : ∀ (i k : ℕ) (hi : i < B.length) (hk : k < B.length),
+      overlap B[i] B[k] = if i = k then ⟨1, 0⟩ else ⟨0, 0⟩)
+    (hc : ∀ j < items.length, Cx.normSq (c j) = 1)
+    (hDl : ∀ j < items.length, (D j).length = items.length)
+    (hD : ∀ j < items.length, sumNormSq (D j) ≤ ε ^ 2) (hε0 : 0 ≤ ε) (hε : ε < 1 / 2)
+    (hTj : ∀ (j : ℕ) (hj : j < T.length),
+      T[j] = List.zipWith (fun bk dk => Cx.add (Cx.mul (c j) bk) dk) (B.getD (σ j) []) (D j))
+    (hσ : ∀ j < items.length, σ j < items.length) (hπ : ∀ i < items.length, π i < items.length)
+    (hσπ : ∀ i < items.length, σ (π i) = i) (hπσ : ∀ j < items.length, π (σ j) = j) :
+    runSort Generated.sortSpec none none items T B = some ((List.range items.length).map fun i => items[π i]?) ∧
+    ((List.range items.length).map fun i => items[π i]?).Perm (items.map some) := by
+  rw [(evec_model_is_source_sort items T B).1]
+  have h := evecSort_recovers items B T c D σ π ε hB hT hBl horth hc hDl hD hε0 hε hTj hσ hπ hσπ hπσ
+  exact ⟨h.1, h.2.2⟩
+
+/-- the explicit instance of `evecSort_recovers`' example through the interpreted source -/
+example :
+    runSort Generated.sortSpec none none ["x", "y"]
+      [[⟨1 / 10, -4 / 5⟩, ⟨0, 3 / 5⟩], [⟨-3 / 5, 0⟩, ⟨-4 / 5, -1 / 10⟩]]
+      [[(⟨3 / 5, 0⟩ : Cx ℝ), ⟨4 / 5, 0⟩], [⟨-4 / 5, 0⟩, ⟨3 / 5, 0⟩]]
+      = evecSort ["x", "y"] [[⟨1 / 10, -4 / 5⟩, ⟨0, 3 / 5⟩], [⟨-3 / 5, 0⟩, ⟨-4 / 5, -1 / 10⟩]]
+          [[(⟨3 / 5, 0⟩ : Cx ℝ), ⟨4 / 5, 0⟩], [⟨-4 / 5, 0⟩, ⟨3 / 5, 0⟩]] :=
+  (evec_model_is_source_sort _ _ _).1
+
+/-- DISP2EIG = SOURCE.  `evec_disp2eig` as the source says it now — `numpy.repeat(mass, 3)` (each mass three times consecutively), the
+test `a.shape[1] == 3*N` with RuntimeError in the other branch, `a *= sqrt(m[nax, :])` (one factor per column),
+`norm = diag(conj(a) @ a.T)`, `a /= sqrt(norm)[:, nax]` (one factor per row), in the extracted order — is the model's `disp2eig`, for
+every list of rows and every mass list; and `numpy.repeat(mass, 3)` is the model's `repeat3`. -/
+theorem evec_model_is_source_disp2eig (a : List (List (Cx ℝ))) (mass : List ℝ) :
+    runDisp Generated.dispSpec a mass = disp2eig a mass ∧
+    repeatEach Generated.dispSpec.times mass = repeat3 mass ∧ Generated.dispSpec.repeated = "mass" :=
+  ⟨runDisp_is_disp2eig a mass, repeatEach_three mass, by decide⟩
+
+/-- NO DIVISIBILITY ESCAPE.  The extracted shape test is true exactly when the number of COLUMNS is `3·N`, whatever the number of rows;
+the interpreted source rejects a non-empty rectangular `M × K` array exactly when `K ≠ 3·len(mass)` — for every shape, also when
+`3N ∣ M·K` — and no call or attribute of the function reshapes `a`. -/
+theorem evec_model_is_source_disp2eig_rejects (a : List (List (Cx ℝ))) (mass : List ℝ) (K : Nat) (hne : a ≠ [])
+    (hK : ∀ r ∈ a, r.length = K) :
+    (∀ M N, Generated.dispSpec.shapeTest.eval M K N = true ↔ K = 3 * N) ∧
+    (runDisp Generated.dispSpec a mass = none ↔ K ≠ 3 * mass.length) ∧
+    (disp2eig a mass = none ↔ K ≠ 3 * mass.length) ∧
+    (∀ f ∈ ["reshape", "ravel", "flatten", "resize", "squeeze", "atleast_2d", "transpose", "swapaxes", "flat"],
+      f ∉ Generated.dispSpec.attributes ∧ ("numpy." ++ f) ∉ Generated.dispSpec.calls) := by
+  refine ⟨fun M N => disp_shape_test_iff M K N, runDisp_rejects_iff a mass K hne hK, ?_, disp_no_reshape⟩
+  rw [← runDisp_is_disp2eig]
+  exact runDisp_rejects_iff a mass K hne hK
+
+/-- a 6 × 7 array with two atoms (42 = 7·6 elements, 3N = 6 divides it) is rejected -/
+example : disp2eig (List.replicate 6 (List.replicate 7 (⟨1, 0⟩ : Cx ℝ))) [1, 1] = none :=
+  ((evec_model_is_source_disp2eig_rejects (List.replicate 6 (List.replicate 7 (⟨1, 0⟩ : Cx ℝ))) [1, 1] 7 (by simp)
+    (by intro r hr; rw [List.eq_of_mem_replicate hr]; simp)).2.2.1).2 (by norm_num)
+
+/-- the norm the division uses is real: the diagonal entry of the extracted `conj(a) @ a.T` is `⟨Σ_k |a_ik|², 0⟩` -/
+theorem evec_model_is_source_norm_real (a : List (List (Cx ℝ))) (K i : Nat) (hi : i < a.length) (hK : (a[i]).length = K) :
+    ∀ name e, DispStmt.normDiag name e ∈ Generated.dispSpec.body →
+      e.eval (fun n => if n == "a" then matOf a else fun _ _ => Cx.zero) K i i = ⟨sumNormSq a[i], 0⟩ :=
+  disp_norm_is_real a K i hi hK
+
+/-- REGEXES = SOURCE.  For EVERY string: the backtracking matcher (greedy quantifiers, alternatives in Python's priority order, leftmost
+start position) run on the extracted `Q_COORDS_REGEX` / `MODE_INDEX_REGEX` finds exactly the groups the model's deterministic scanners
+find, and fails exactly when they fail — the scanners recognise the language of the patterns and capture what `re.search(...).groups()`
+captures. -/
+theorem evec_model_is_source_regex (l : List Char) :
+    Rx.search Generated.qCoordsRegex l = (Evec.search matchQAt l).map (fun p => [p.1, p.2.1, p.2.2]) ∧
+    Rx.search Generated.modeIndexRegex l = (Evec.search matchFreqAt l).map (fun p => [p.1, p.2.1, p.2.2]) :=
+  ⟨Rx.search_qCoords l, Rx.search_modeIndex l⟩
+
+example : Rx.search Generated.qCoordsRegex " q =       0.1258     -0.0347      0.0000".toList
+    = some ["0.1258".toList, "-0.0347".toList, "0.0000".toList] := by decide +kernel
+
+example : Rx.search Generated.modeIndexRegex "     freq (    2) =       0.810621 [THz] =      27.039414 [cm-1]".toList
+    = some ["2".toList, "0.810621".toList, "27.039414".toList] := by decide +kernel
+
+/-- backtracking is really exercised: `\d+\.?\d*` first takes `2.5`, then must give back (no blank follows) and fails on `2.5.3` -/
+example : Rx.search Generated.qCoordsRegex "q = 1. 2.5.3 7".toList = none := by decide +kernel
+
+/-- SLICES = SOURCE.  One vector line is read through the extracted table of (real, imaginary) column slices of the STRIPPED line, in
+tuple order; the table is `[2:12]+[13:23]·1j, [26:36]+[37:47]·1j, [50:60]+[61:71]·1j`: six pairwise different slices of ten columns, each
+used exactly once; there is NO conditional construct in `_read_vecs` / `_read_modes` / `_read_q_points` (nothing depends on the q-point,
+Γ included). -/
+theorem evec_model_is_source_slices {Num : Type} (pf : List Char → Option Num) (raw : List Char) :
+    readVecLine pf raw = (specReaders Generated.loadSpec pf).readVec raw ∧
+    (specReaders Generated.loadSpec pf).readVec raw =
+      (Generated.loadSpec.vecComponents.mapM fun s => do
+        let x ← pf (slice (strip raw) s.1.1 s.1.2)
+        let y ← pf (slice (strip raw) s.2.1 s.2.2)
+        pure (x, y)) ∧
+    (Generated.loadSpec.vecComponents.flatMap fun s => [s.1, s.2]).Nodup ∧
+    (∀ s ∈ Generated.loadSpec.vecComponents.flatMap (fun s => [s.1, s.2]), s.2 = s.1 + 10) ∧
+    Generated.loadSpec.vecComponents.length = 3 ∧
+    Generated.loadSpec.conditionals = [] := by
+  refine ⟨?_, rfl, by decide, by decide, by decide, by decide⟩
+  rw [specReaders_is_concrete]
+  rfl
+
+/-- LOADER = SOURCE.  `evec_load` as the source says it now — both regexes, the slice table, `np // 3` vector lines per mode, the
+converters `(int, float, float)` zipped to the groups, the step list of `_read_q_points` (two lines skipped, q line, one skipped, `np`
+modes, one skipped), every line stripped before use — is the model's `evecLoad`: for every `float`, `nq`, `np` and list of lines. -/
+theorem evec_model_is_source_load {Num : Type} (pf : List Char → Option Num) (nq np : Nat) (file : List (List Char)) :
+    evecLoadS Generated.loadSpec pf nq np file = evecLoad pf nq np file ∧
+    Generated.loadSpec.qSteps = [.skip 2, .qLine, .skip 1, .modes, .skip 1] ∧
+    Generated.loadSpec.converters = ["int", "float", "float"] ∧ Generated.loadSpec.vecLinesDiv = 3 :=
+  ⟨evecLoadS_is_evecLoad pf nq np file, by decide, by decide, by decide⟩
+
+/-- the sample file through the interpreted source -/
+example : (evecLoadS Generated.loadSpec pfRat 1 3 sampleEig).map List.length = some 1 := by
+  rw [(evec_model_is_source_load pfRat 1 3 sampleEig).1]
+  decide +kernel
+
+/-- `cij/misc/__init__.py` re-exports each tool from the module the model mirrors, under its own name -/
+theorem evec_model_is_source_exports :
+    ∀ n ∈ ["evec_sort", "evec_load", "evec_disp2eig"], (n, n, n) ∈ Generated.miscExports ∧ n ∈ Generated.miscAll := by
+  decide
+
+end source
 
 end Cij.C20
